@@ -545,10 +545,18 @@ def spawn_layer_in_subprocess(result, script_parts, options, features,
         for feature in features:
             feature.layer_setup(layer)
 
-        child = subprocess.Popen(
-            args, shell=False, stdin=subprocess.PIPE,
-            stdout=subprocess.PIPE, stderr=subprocess.PIPE, cwd=cwd,
-            close_fds=not sys.platform.startswith('win'))
+        try:
+            child = subprocess.Popen(
+                args, shell=False, stdin=subprocess.PIPE,
+                stdout=subprocess.PIPE, stderr=subprocess.PIPE, cwd=cwd,
+                close_fds=not sys.platform.startswith('win'))
+        except Exception as e:
+            # Without this the exception would only kill this thread and
+            # the layer would silently count as having run no tests.
+            errors.append(("subprocess for %s" % layer_name, None))
+            output.error_with_banner(
+                "Could not start subprocess for %s: %s" % (layer_name, e))
+            return
 
         def reader_thread(f, buf):
             buf.append(f.read())
